@@ -362,6 +362,16 @@ def ob_announce(run, oid):
                             got.setdefault(v, set()).add(name)
         for v, f in want.items():
             o.check(got.get(v) == {f}, "SlotState::add_cert|%s" % v, "Cert::%s is stored in certificates.%s only" % (v, f), b.span, {"got": sorted(got.get(v, []))})
+        # ... and ALWAYS stored: the only certificate add_cert may drop is a notar-fallback certificate for a block that already has one
+        # (the same predicate the creation guards use - if storing is skipped under a wider test, the creation guard keeps firing: the
+        # certificate is created and broadcast again with every further vote)
+        sites = [(bb, sp) for (bb, owner, name, rv, sp, dst) in b.field_writes() if owner == SC]
+        sites += [(c.bb, c.span) for c in b.calls() if c.name.rsplit("::", 1)[-1] in ("push", "insert", "extend") and c.args and K.mentions_field(b.operand_term(c.args[0]), "notar_fallback", "SlotCertificates")]
+        for (bb, sp), key in K.ordinal_keys(sites, lambda x: "SlotState::add_cert|store"):
+            rec = [lambda a: a[0] == "variant" and a[1][1] <= set(K.CERT_KINDS),
+                   lambda a: a[0] == "bool" and a[2] is False and isinstance(a[1][0], tuple) and a[1][0][0] == "call" and a[1][0][1] == SS + "::is_notar_fallback"]
+            extra = D.extra_guards(prog, b, bb, rec)
+            o.check(not extra, key + "|always", "stored unless (notar-fallback only) one for the same block is already held - no other condition", sp, {"extra": G.atoms_show(extra)})
 
 
 def check(run):
